@@ -27,6 +27,7 @@ import (
 	"github.com/datastax/go-cassandra-native-protocol/message"
 	"github.com/datastax/go-cassandra-native-protocol/primitive"
 	gsnappy "github.com/golang/snappy"
+	plz4ref "github.com/pierrec/lz4/v4"
 
 	"verif/mon"
 )
@@ -981,6 +982,13 @@ func (x *Conn) sendMsgTok(stream int16, msg message.Message, o Outcome, kind str
 		return err
 	}
 	b := buf.Bytes()
+	if codec == lz4Codec && primitive.HeaderFlag(b[1]).Contains(primitive.HeaderFlagCompressed) {
+		body := ValidLz4Body(b[9:])
+		if len(body) != len(b)-9 {
+			b = append(append([]byte{}, b[:9]...), body...)
+			binary.BigEndian.PutUint32(b[5:9], uint32(len(body)))
+		}
+	}
 	ev := mon.Event{Src: "backend", K: kind, Host: x.Host.Idx, Conn: x.ID, Ver: int(v), Fl: int(b[1]), St: int(stream), Op: int(b[4]),
 		Tok: tok, Arrival: n, Outcome: o.Name, Body: b[9:], Ctl: x.IsRegistered(), Ks: x.Ks(), Comp: x.Comp()}
 	if o.Hold {
@@ -1126,4 +1134,42 @@ func lz4Block(src, dst []byte) (int, error) {
 		}
 	}
 	return di, nil
+}
+
+// ValidLz4Body makes sure a CQL lz4 frame body (4-byte length + block) produced by the reference library is a VALID LZ4
+// block. github.com/pierrec/lz4/v4 v4.0.3's compressor can emit a match offset of 0 (a distance of 65536 truncated to 16
+// bits), which its own decoder tolerates but the format forbids; such a body would make the harness send a malformed
+// frame. An invalid block is replaced by the literal-only encoding of the same data.
+func ValidLz4Body(body []byte) []byte {
+	if len(body) < 4 {
+		return body
+	}
+	n := int(binary.BigEndian.Uint32(body[:4]))
+	if n == 0 {
+		return body
+	}
+	out := make([]byte, n)
+	if w, err := lz4Block(body[4:], out); err == nil && w == n {
+		return body
+	}
+	// recover the data with the library's own decoder, then encode it as one literal run
+	plain := make([]byte, n)
+	w, err := plz4ref.UncompressBlock(body[4:], plain)
+	if err != nil || w != n {
+		return body
+	}
+	b := make([]byte, 4, n+n/255+32)
+	binary.BigEndian.PutUint32(b, uint32(n))
+	if n < 15 {
+		b = append(b, byte(n<<4))
+	} else {
+		b = append(b, 0xf0)
+		rest := n - 15
+		for rest >= 255 {
+			b = append(b, 255)
+			rest -= 255
+		}
+		b = append(b, byte(rest))
+	}
+	return append(b, plain...)
 }
